@@ -12,6 +12,14 @@ in /verif and restores /repo (the method of the brief; one at a time)."""
 import json, os, subprocess, sys, re, concurrent.futures, shutil
 
 V = "/verif"
+CACHE = "/tmp/seed_target_cache"
+
+def build_cache():
+    """A pristine worktree whose target directory (all dependencies built) is copied into every seed worktree."""
+    if os.path.isdir(CACHE + "/target"):
+        return
+    sh(f"git -C /repo worktree remove --force {CACHE}; rm -rf {CACHE}; git -C /repo worktree add --detach {CACHE} HEAD && cp /repo/Cargo.lock {CACHE}/")
+    sh("cargo nextest run --workspace --no-run --offline", cwd=CACHE)
 SEEDS = {
  # id: (property, what it needs in order to manifest, checks to run)
  "C01-m1": ("C01", "a fact whose head holds a variable (nested in a term) matched with an unbound caller argument, then a later clause with variables: the fact's variable ids are released while still live", ["C01", "C10", "C08"]),
@@ -88,6 +96,9 @@ def run_seed(sid, official=False):
     wt = f"/tmp/wt_seed_{sid}"
     sh(f"git -C /repo worktree remove --force {wt}; rm -rf {wt} {wt}.verif")
     sh(f"git -C /repo worktree add --detach {wt} HEAD && cp /repo/Cargo.lock {wt}/")
+    # the dependencies of the test suite (criterion & co.) are built once and copied
+    if os.path.isdir(CACHE + "/target"):
+        sh(f"cp -a {CACHE}/target {wt}/target")
     res = {"id": sid, "property": prop, "needs_to_manifest": needs, "repo_commit": sh("git -C /repo rev-parse --short HEAD")[1].strip()}
     ran = []
     try:
@@ -160,6 +171,7 @@ def main():
     official = "--official" in args
     ids = [a for a in args if not a.startswith("--")] or sorted(SEEDS)
     jobs = 1 if official else int(os.environ.get("SEED_JOBS", "4"))
+    build_cache()
     with concurrent.futures.ThreadPoolExecutor(max_workers=jobs) as ex:
         for res in ex.map(lambda s: run_seed(s, official), ids):
             with open(f"{V}/seeded/{res['id']}/meta.json", "w") as f:
